@@ -43,7 +43,9 @@ CONFIG = {
              "matrix read back last is used again, changed through the public sequence API (column deleted, column "
              "appended, cell overwritten from its column) and written/read once more against the updated "
              "expectation.  Data sets: 1-3 namespaces "
-             "each with a tree list and/or a matrix, NEXUS with suppress_block_titles in {None, False} and NeXML.  "
+             "each with a tree list and/or 1-3 matrices (from_dict, concatenate, or with new_character_subset; "
+             "continuous ones with negative / small-exponent values) added in drawn order, labels optionally with "
+             "hyphens/blanks, NEXUS with suppress_block_titles in {None, False} and NeXML.  "
              "Exhaustive: every symbol of every type as 1x1 and 2x1 matrix through every supported format variant.  "
              "Non-trivial = matrix with >= 1 non-fundamental symbol (continuous: >= 1 non-integral value), or a "
              "route other than plain from_dict, or >= 2 hops; data set with >= 2 namespaces; distinct = whole case."),
@@ -109,6 +111,7 @@ WRAP_COLS_THOROUGH = WRAP_COLS + [116, 117, 139, 140, 141]
 # known findings (narrow keys; the input predicate is in known_key())
 KF_NEXUS_SEMI = "C09.nexus_label_semicolon"                     # a taxon label that is exactly ";" through NEXUS
 KF_CONCAT_STD = "C09.nexml_cells_after_concatenate_standard"    # concatenate() of standard matrices -> NeXML cells
+KF_SETS_LINK = "C09.ds_nexus_sets_block_without_link"           # subset-carrying matrix that is not the first matrix
 
 
 def full_symbols(dtype):
@@ -567,6 +570,8 @@ def known_key(info, fmt):
         return KF_NEXUS_SEMI
     if fmt == "nexml" and info.get("fresh_concat_standard") and info.get("cells"):
         return KF_CONCAT_STD
+    if fmt == "nexus" and info.get("subset_carrier_not_first"):
+        return KF_SETS_LINK
     return None
 
 
@@ -937,33 +942,63 @@ def check_symbol(ctx, case):
 _TITLES = [None, None, "taxa", "Taxa", "ns", "ns 1", "x_y", "a", "b", "A", "set.1", "1"]
 
 
+_SUBSET_LABELS = ["cs", "part", "p-1", "codon 1", "x_y", "locus000", "1"]
+
+
+def dataset_labels(n, prefix, hyphens):
+    """Simple labels (tree label quoting is C02's subject); optionally with hyphens / blanks inside."""
+    word = st.lists(st.sampled_from(_ALNUM[:52]), min_size=1, max_size=4).map("".join)
+    joiner = st.sampled_from(["-", "-", " ", "_", "--"]) if hyphens else st.just("")
+    return st.lists(st.tuples(word, joiner), min_size=n, max_size=n).map(
+        lambda xs: ["%s%s%s%d" % (prefix, x, j, i) for i, (x, j) in enumerate(xs)])
+
+
+@st.composite
+def dataset_matrix(draw, types, n):
+    dtype = draw(st.sampled_from(types))
+    build = draw(st.sampled_from(["from_dict", "from_dict", "from_dict", "concat", "subsets"]))
+    ncols = draw(st.integers(2 if build == "concat" else 1, 6))
+    cell = cell_strategy(dtype, "uniform")
+    has = [True] * n
+    if build != "concat":
+        has = [draw(st.integers(0, 5)) > 0 for _ in range(n)]
+        if not any(has):
+            has[0] = True
+    spec = {"dtype": dtype, "build": build,
+            "rows": [draw(st.lists(cell, min_size=ncols, max_size=ncols)) if h else None for h in has]}
+    if build == "concat":
+        spec["cuts"] = cut_points(draw, ncols, 3) or [1]
+    if build == "subsets":
+        k = draw(st.integers(1, 3))
+        labs = draw(st.lists(st.sampled_from(_SUBSET_LABELS), min_size=k, max_size=k, unique_by=lambda x: x.lower()))
+        spec["subsets"] = [{"label": l, "indices": sorted(draw(st.sets(st.integers(0, ncols - 1), min_size=1)))}
+                           for l in labs]
+    return spec
+
+
 @st.composite
 def dataset_cases(draw):
     schema = draw(st.sampled_from(["nexus", "nexus", "nexml"]))
     nns = draw(st.sampled_from([1, 2, 2, 3, 3]))
-    types = [t for t in ["dna", "protein", "standard", "continuous", "rna", "restriction", "nucleotide"]
-             if t in SUPPORT[schema]]
+    types = [t for t in ["dna", "protein", "standard", "continuous", "continuous", "continuous", "rna", "restriction",
+                         "nucleotide"] if t in SUPPORT[schema]]
     nss = []
     for i in range(nns):
         content = draw(st.sampled_from(["trees", "matrix", "both", "both"]))
         n = draw(st.integers(1 if content == "matrix" else 2, 5))
         shared = draw(st.integers(0, 3)) == 0  # label lists of different namespaces may overlap
-        labels = draw(simple_labels(n, "" if shared else "n%d" % i))
-        ns = {"title": draw(st.sampled_from(_TITLES)), "labels": labels, "trees": None, "matrix": None}
+        labels = draw(dataset_labels(n, "" if shared else "n%d" % i, draw(st.integers(0, 2)) == 0))
+        ns = {"title": draw(st.sampled_from(_TITLES)), "labels": labels, "trees": None, "matrices": []}
         if content in ("trees", "both"):
             ntrees = draw(st.integers(1, 2))
             ns["trees"] = [draw(shapes.shapes(min_leaves=n, max_leaves=n, max_arity=3)) for _ in range(ntrees)]
         if content in ("matrix", "both"):
-            dtype = draw(st.sampled_from(types))
-            ncols = draw(st.integers(1, 6))
-            cell = cell_strategy(dtype, "uniform")
-            has = [draw(st.integers(0, 5)) > 0 for _ in range(n)]
-            if not any(has):
-                has[0] = True
-            ns["matrix"] = {"dtype": dtype, "rows": [draw(st.lists(cell, min_size=ncols, max_size=ncols)) if h else None
-                                                     for h in has]}
+            for _ in range(draw(st.sampled_from([1, 1, 2, 3]))):
+                ns["matrices"].append(draw(dataset_matrix(types, n)))
         nss.append(ns)
-    case = {"schema": schema, "nss": nss, "matrices_first": draw(st.booleans())}
+    # order in which blocks are added to the data set (= order of the blocks of one kind in the document)
+    case = {"schema": schema, "nss": nss, "matrices_first": draw(st.booleans()), "shuffle": draw(st.integers(0, 10 ** 6)),
+            "subset_carriers_first": draw(st.integers(0, 3)) > 0}
     if schema == "nexus":
         case["sbt"] = draw(st.sampled_from([None, False]))
     else:
@@ -989,22 +1024,43 @@ def check_dataset(ctx, case):
             tl = dendropy.TreeList(taxon_namespace=ns)
             for tspec in spec["trees"]:
                 tl.append(shapes.build_tree(tspec, ns, taxa, is_rooted=True))
-            adders.append((1, ds.add_tree_list, tl))
-            want_trees.append({"ns": list(spec["labels"]), "n": len(spec["trees"]),
-                               "leaves": sorted(spec["labels"])})
-        if spec["matrix"] is not None:
-            dtype = spec["matrix"]["dtype"]
-            d = collections.OrderedDict((l, list(r)) for l, r in zip(spec["labels"], spec["matrix"]["rows"])
-                                        if r is not None)
-            m = matrix_class(dtype).from_dict(d, taxon_namespace=ns)
-            adders.append((0, ds.add_char_matrix, m))
-            want_mats.append({"ns": list(spec["labels"]), "dtype": dtype,
-                              "rows": [(l, list(r)) for l, r in zip(spec["labels"], spec["matrix"]["rows"])
-                                       if r is not None]})
+            adders.append((1, ds.add_tree_list, tl, {"ns": list(spec["labels"]), "n": len(spec["trees"]),
+                                                      "leaves": sorted(spec["labels"])}))
+        for mspec in spec.get("matrices") or ([spec["matrix"]] if spec.get("matrix") else []):
+            dtype = mspec["dtype"]
+            cls = matrix_class(dtype)
+            rows = [(l, list(r)) for l, r in zip(spec["labels"], mspec["rows"]) if r is not None]
+            if mspec.get("build") == "concat":
+                parts = [cls.from_dict(collections.OrderedDict((l, r[a:b]) for l, r in rows), taxon_namespace=ns)
+                         for a, b in blocks_of(len(rows[0][1]), mspec["cuts"])]
+                m = cls.concatenate(parts)
+            else:
+                m = cls.from_dict(collections.OrderedDict(rows), taxon_namespace=ns)
+                for sub in mspec.get("subsets") or []:
+                    m.new_character_subset(label=sub["label"], character_indices=sub["indices"])
+            adders.append((0, ds.add_char_matrix, m, {"ns": list(spec["labels"]), "dtype": dtype, "rows": rows,
+                                                       "subsets": bool(m.character_subsets)}))
+    random.Random(case.get("shuffle", 0)).shuffle(adders)
+    if case.get("subset_carriers_first"):
+        adders.sort(key=lambda a: 0 if (a[0] == 0 and a[3]["subsets"]) else 1)
     if case["matrices_first"]:
         adders.sort(key=lambda a: a[0])
-    for _, fn, obj in adders:
-        fn(obj)
+    for a in adders:
+        a[1](a[2])
+        if a[0] == 0:
+            want_mats.append(a[3])
+        else:
+            want_trees.append(a[3])
+    # position (among the character matrices, in document order) of the matrices that carry character subsets
+    carriers = [k for k, w in enumerate(want_mats) if w["subsets"]]
+    if carriers:
+        ctx.cls("dataset:has_subset_carrying_matrix")
+        later = want_mats[carriers[0] + 1:]
+        if any(w["dtype"] == "continuous" and any(x < 0 or "e-" in repr(x) for _, c in w["rows"] for x in c)
+               for w in later):
+            ctx.cls("dataset:continuous_negative_or_exponent_after_subsets")
+    if len(want_mats) > 1:
+        ctx.cls("dataset:matrices=%d" % len(want_mats))
     nns = len(case["nss"])
     kw = {}
     if schema == "nexus":
@@ -1017,9 +1073,14 @@ def check_dataset(ctx, case):
     titles = [s["title"] for s in case["nss"]]
     if len(set(t.upper() for t in titles if t)) < len([t for t in titles if t]):
         ctx.cls("dataset:titles_equal_up_to_case")
-    text = lib_call(ctx, "write_dataset", "C09.ds_write:" + name, {"labels": all_labels}, schema, ds.as_string, schema=schema, **kw)
+    concat_std = any(ms.get("build") == "concat" and ms["dtype"] == "standard"
+                     for sp in case["nss"] for ms in (sp.get("matrices") or []))
+    text = lib_call(ctx, "write_dataset", "C09.ds_write:" + name,
+                    {"labels": all_labels, "fresh_concat_standard": concat_std, "cells": not case.get("seqs", True)},
+                    schema, ds.as_string, schema=schema, **kw)
     ds2 = lib_call(ctx, "read_dataset", "C09.ds_read:%s:%s" % (name, "multi" if nns > 1 else "single"),
-                   {"labels": all_labels}, schema, dendropy.DataSet.get, data=text, schema=schema)
+                   {"labels": all_labels, "subset_carrier_not_first": any(k > 0 for k in carriers)},
+                   schema, dendropy.DataSet.get, data=text, schema=schema)
     doc = lambda: "\n--- document ---\n%s" % text[:2500]
     ctx.check(len(ds2.taxon_namespaces) == nns, "dataset_namespace_count", "C09.ds_ns_count:" + name,
               lambda: "got %d want %d%s" % (len(ds2.taxon_namespaces), nns, doc()))
@@ -1051,7 +1112,7 @@ def check_dataset(ctx, case):
         got = read_rows(w["dtype"], m)
         ctx.check(rows_equal(w["dtype"], got, w["rows"]), "dataset_matrix_rows_equal", "C09.ds_matrix_rows:" + name,
                   lambda: "got %s want %s%s" % (show(got), show(w["rows"]), doc()))
-    if nns >= 2:
+    if nns >= 2 or len(want_mats) >= 2:
         ctx.nontrivial(case)
     ctx.sample("dataset:%s:%d" % (name, nns), case)
 
